@@ -66,6 +66,20 @@ pub fn gen_byods_profile<R: Src>(r: &mut R, _cfg: &GenCfg, ds: Ds, ternary: bool
    } else {
       p.rules.push(rule(vec![rh("k", v("x"), v("y"))], vec![ec("k", "x", "y")]));
    }
+   // seeds written in the program: a fact and a generator-only rule put tuples into R without reading any relation
+   // (their strata have no input to be re-derived from)
+   if profile.is_none() && r.chance(30) {
+      let (c1, c2) = (r.range(0, 4), r.range(0, 4));
+      let kc = Expr::Int(r.range(0, 2), k_ty);
+      let h = if ternary { hd("rr", vec![kc.clone(), Expr::Int(c1, T), Expr::Int(c2, T)]) } else { hd("rr", vec![Expr::Int(c1, T), Expr::Int(c2, T)]) };
+      p.rules.push(rule(vec![h], vec![]));
+      if r.chance(50) {
+         let g = BodyItem::For { pat: Pat::Var("g".into()), iter: IterExpr::Range(Expr::Int(0, T), Expr::Int(r.range(2, 4), T)) };
+         let succ = Expr::AddMod(Box::new(v("g")), 1, 6);
+         let h = if ternary { hd("rr", vec![kc, v("g"), succ]) } else { hd("rr", vec![v("g"), succ]) };
+         p.rules.push(rule(vec![h], vec![g]));
+      }
+   }
    let mut n_feed = 0;
    if sparse {
       n_feed = 1;
